@@ -28,6 +28,12 @@ extern int vp_exc_pending; extern uint8_t* vp_exc_obj; extern uint8_t* vp_exc_ty
 int vp_exc_matches(uint8_t* ti); uint32_t vp_typeid_for(uint8_t* ti);
 uint64_t vp_ptrtoint(uint8_t* p); uint8_t* vp_inttoptr(uint64_t x);
 uint8_t* vp_alloca(uint64_t n);
+/* p - q as integers; identical to vp_ptrtoint(p) - vp_ptrtoint(q), stated so that the difference inside one object folds to a constant */
+static inline uint64_t vp_ptrdiff(uint8_t* p, uint8_t* q) {
+#ifdef __CPROVER__
+  if (__CPROVER_same_object(p, q)) return (uint64_t)((int64_t)__CPROVER_POINTER_OFFSET(p) - (int64_t)__CPROVER_POINTER_OFFSET(q));
+#endif
+  return vp_ptrtoint(p) - vp_ptrtoint(q); }
 #ifndef VP_RT_LOOP_MAX
 #define VP_RT_LOOP_MAX 4096
 #endif
